@@ -419,6 +419,10 @@ fn boxed_ops(op: &str, a: &[&str]) -> Option<String> {
                 bhexlen(&x.wrapping_mul(&y)),
                 bhexlen(&WrappingMul::wrapping_mul(&x, &y)),
                 bhexlen(&(Wrapping(x.clone()) * Wrapping(y.clone())).0),
+                // every by-value / by-reference combination (seed C03-m7: `&W * W` forwarded to `rhs * self`: other precision)
+                bhexlen(&(Wrapping(x.clone()) * &Wrapping(y.clone())).0),
+                bhexlen(&(&Wrapping(x.clone()) * Wrapping(y.clone())).0),
+                bhexlen(&(&Wrapping(x.clone()) * &Wrapping(y.clone())).0),
                 bhexlen(&w.0),
                 bhexlen(&w2.0),
             ])
